@@ -6,8 +6,8 @@ import tempfile
 from lib.core import *
 
 ID = "C11"
-PROPS_FILES = ["Gama/Props/C11.lean"]
-LEAN_TARGETS = ["Gama.Props.C11"]
+PROPS_FILES = ["Gama/Props/C11.lean", "Gama/Props/C11Lang.lean"]
+LEAN_TARGETS = ["Gama.Props.C11", "Gama.Props.C11Lang"]
 DRIVERS = ["drv_gkf"]
 
 LEVEL_TEXT = (
@@ -17,7 +17,14 @@ LEVEL_TEXT = (
     "error state, exception after the chunk), the numeric-literal recognisers (IsFloat, IsInteger, toIndex, deg2gon) "
     "and the cov-mat element accounting are hand-written models tied to the C++ by differential correspondence "
     "(state after every SAX event incl. every (state, tag) pair and 2-chunk delivery; all strings up to length 5/6 "
-    "over a 10-letter alphabet).  Memory safety, termination and the located diagnostic of the real process are NOT "
+    "over a 10-letter alphabet).  Round 3: language of the GKF automaton = an explicit element grammar (both inclusions), "
+    "the literal recognisers = their regular languages (iff, all strings), the cov-mat fill writes exactly the band positions; "
+    "the adjustment-results reader (LocalNetworkAdjustmentResults::Parser) and the gama-g3 DataParser have their own translators "
+    "(tagfun / next-after-stag-etag tables and the statement skeleton of every handler, regenerated on every run), run models in which "
+    "error() does not leave the handler, theorems (state == s_error <=> located error recorded, absorbing, first error wins, "
+    "every <flt> store inside the covariance storage of its moment) and event correspondences against the real parsers "
+    "(state, first error, stack depth, iterator offsets after every expat callback).  "
+    "Memory safety, termination and the located diagnostic of the real process are NOT "
     "proved: they are explored by running gama-local built with ASan+UBSan on grammar-derived, mutated and truncated inputs.")
 LEVEL_NOTE = (
     "Trusted: Lean kernel; statements in Props/C11.lean; the translator tools/gen/c11_gkf_automaton.py (validated by "
@@ -31,12 +38,17 @@ RULE = ("documents: grammar-derived (valid values), one structural/attribute/val
         "events. literals: every string of length <= 5 (quick) / 6 (thorough) over {0,1,9,+,-,.,e,E,' ',x} plus random "
         "longer ones; distinct by string. cov-mat: dim/band/text variants; distinct by triple. executable runs: distinct by file bytes")
 TRUSTED = ["tools/gen/c11_gkf_automaton.py (mini-parser of gkfparser.cpp/.h; raises TieBroken on anything unrecognised)",
+           "tools/gen/c11_adjres.py, tools/gen/c11_dataparser.py (same, for localnetwork_adjustment_results.{h,cpp} and dataparser*.cpp; "
+           "the fixed callbacks startElement/endElement/get_int/... are compared textually with what the run model was written for)",
+           "harness/c11_adjres.cpp: includes the header with `private` re-defined (access only) and re-registers expat trampolines "
+           "around the real `final` callbacks; members the constructor leaves unassigned are preset (tmp_i == tmp_e)",
            "harness/c11_gkf.cpp: subclass of GKFparser printing expat's events and the protected state/errCode/errString",
            "libexpat (event delivery, well-formedness, line numbers)"]
 MODELLED = ["value checks inside process_*/finish_* (one bit per event)", "expat", "atof/atoi/istringstream number conversion "
             "(only the accepted language of deg2gon's extractions is modelled, overflow to HUGE_VAL excluded)",
             "memory safety and termination of the C++ process (sanitizer search only)",
-            "gama-g3 and adjustment-result readers (not covered by this check)"]
+            "adjustment-results reader and DataParser: the values stored into the result objects (only control state, error, "
+            "stack of open elements, covariance storage size / iterators / writes are modelled); HtmlParser (sanitizer search only)"]
 ASSUMPTIONS = ["expat delivers a prefix of a well-nested event sequence (one root element)",
                "'C' locale for isspace/isdigit", "char values >= 0x80 are neither blank nor digit",
                "memory safety / termination / located diagnostic: explored under ASan+UBSan on generated inputs, not proved"]
@@ -47,8 +59,30 @@ _spec.loader.exec_module(_tr)
 _tr.TieBroken = TieBroken
 
 
+# the other two parsers of the property's statement: own translator + model + event stream each
+def _load(name):
+    sp = importlib.util.spec_from_file_location(name, str(VERIF / "tools" / "props" / (name + ".py")))
+    m = importlib.util.module_from_spec(sp)
+    sp.loader.exec_module(m)
+    return m
+
+
+SUBS = [_load(n) for n in ("c11_adjres",) if (VERIF / "tools" / "props" / (n + ".py")).exists()]
+for _m in SUBS:
+    PROPS_FILES = PROPS_FILES + _m.PROPS_FILES
+    LEAN_TARGETS = LEAN_TARGETS + _m.LEAN_TARGETS
+    DRIVERS = DRIVERS + _m.DRIVERS
+
+
 def translate(ctx):
-    _tr.run(ctx.repo, ctx.verif)
+    errs = []
+    for f in [lambda c: _tr.run(c.repo, c.verif)] + [m.translate for m in SUBS]:
+        try:
+            f(ctx)
+        except TieBroken as e:       # regenerate the other tables all the same; report the first broken translator
+            errs.append(e)
+    if errs:
+        raise errs[0]
 
 
 # ------------------------------------------------------------------ documents
@@ -791,6 +825,7 @@ def run_readers(ctx, corr):
     corr.count("consumer_runs", len(cons))
     ctx.log(f"reader stream: {n_harness} documents through LocalNetworkAdjustmentResults/DataParser, {len(cons)} consumer runs, "
             f"{len(bases)} base results, {time.time() - t0:.1f}s")
+    return bases
 
 
 # ------------------------------------------------------------------ executable-level search / oracle
@@ -1006,7 +1041,12 @@ def correspond(ctx, corr):
     ctx.log(f"literal correspondence: {n} strings")
     run_cov(ctx, corr, exe)
     exec_oracle(ctx, corr, exec_inputs(ctx))
-    run_readers(ctx, corr)
+    bases = run_readers(ctx, corr)
+    for m in SUBS:
+        if m.__name__ == "c11_adjres":
+            m.run_stream(ctx, corr, bases)
+        else:
+            m.run_stream(ctx, corr)
     if corr.stats.get("outcome_parser", 0) < 20:
         corr.inconclusive.append("fewer than 20 refused documents in the event correspondence")
     if corr.stats.get("outcome_ok", 0) < 20:
